@@ -41,7 +41,7 @@ func (o *Oracles) onReconfEvent(w *World, e *Event) {
 			r.failedGens[e.Ent][e.N] = true
 		}
 	case "PROC_PROCESS":
-		if w.cfg.Scenario == "apply" && o.ap.liveRev != nil && len(o.ap.inFlight) == 0 && len(w.faultFired) == 0 && !o.ctl.userStopOK && !o.ctl.stopInFlight() {
+		if w.cfg.Scenario == "apply" && o.ap.liveRev != nil && len(o.ap.inFlight) == 0 && len(w.faultFired) == 0 && !o.ctl.userStopOK && !o.ctl.stopInFlight() && !draining(w) {
 			if i := strings.LastIndexByte(e.Note, '|'); i >= 0 {
 				if want, ok := o.ap.liveRev[e.Ent]; ok && e.Note[i+1:] != want && e.Note != "stuck" {
 					w.violate("C16", "running-pipeline-differs-from-config", fmt.Sprintf("processor %s of the running pipeline handles records with settings revision %q while the configuration (Export) says %q: the last apply left the running pipeline and the configuration in disagreement", e.Ent, e.Note[i+1:], want))
@@ -120,4 +120,16 @@ func (o *Oracles) checkGenerations(w *World) {
 	}
 	// records processed after a successful swap carry the new revision: checked through
 	// generation monotonicity (onReconfEvent) - the newest applied generation is the largest
+}
+
+// draining: a source of the live run has been told to stop - the pipeline is on its way to
+// "cleanly stopped" whatever the control calls that asked for it returned (two stop requests
+// that interleave can both report "stop already triggered" after stopping one source each).
+func draining(w *World) bool {
+	for _, sys := range w.srcs {
+		if sys.sess != nil && !sys.sess.closed && sys.sess.inc == w.inc && sys.sess.stopping {
+			return true
+		}
+	}
+	return false
 }
